@@ -21,7 +21,7 @@ claimed = {
  'C09': ('exploration','rune reference model vs balances and burned totals, exact','reference-model oracle'),
  'C10': ('exploration','rune reference model vs mint counts; mints never exceed cap','reference-model oracle'),
  'C11': ('exploration','rune reference model vs set of runes, names, ids, dense numbers, entry fields','reference-model oracle'),
- 'C12': ('exploration','twin runs: reference schedule vs generated schedule, masked canonical dumps equal at the tip and at an intermediate checkpoint; thorough additionally enumerates, for one small chain, every partition into update calls x every commit interval x reopen/no reopen','twin-run oracle'),
+ 'C12': ('exploration','twin runs: reference schedule vs generated schedule, masked canonical dumps equal at the tip and at an intermediate checkpoint; a quarter of the update calls are raced by a second Index::update that wins the write lock right after a mid-batch commit; thorough additionally enumerates, for one small chain, every partition into update calls x every commit interval x reopen/no reopen','twin-run oracle'),
  'C13': ('fault_enumeration','one disk fault per history, placed after a fault-free probe: crash at a disk operation or named point (clean / torn / all-written recovery), EIO, ENOSPC; state after restart = uninterrupted index of a committed height within [last acknowledged, in flight]; resumed tip = uninterrupted tip. A quarter of the histories contain a reorganisation that the faulted update has to roll back (crash before / inside / after the savepoint restore, named points reorg.before, reorg.restored, reorg.after): state after restart = uninterrupted index of that height on the abandoned or on the new chain, resumed result = from-scratch index of the new best chain. Quick samples placements; thorough additionally enumerates every crash position of small histories','crash-consistency oracle against fault-free twins'),
  'C14': ('exploration','reorganisations between and inside updates (named points, prefetch lag 0..31), depths around the recoverable boundary; outcome must be Ok + dump equal to a from-scratch index of the final best chain, or Unrecoverable + status flag; step budget decides termination; thorough additionally enumerates, for one small history, every landing point (named point x occurrence) x depth of a reorganisation inside the update','twin-run oracle + bounded liveness'),
  'C15': ('exploration','twin runs: reduced optional-index combination (incl. node-fetch path under batch cuts, reordered replies, retried fetches) vs all indexes, projected dump equal','twin-run oracle'),
